@@ -275,8 +275,9 @@ static void op_R(int is_file, long start, int print_mode, size_t lineno) {
               const char* spec = items[i].kind == I_FSPEC ? items[i].spec : "%f";
               char cv = items[i].kind == I_FSPEC ? items[i].conv : 'f';
               /* equal to within the printed precision: the same text under the same specification; for six decimals also half a
-               * unit of the sixth decimal plus the rounding of the reader */
-              double tol = 0.5e-6 + fabs(x) * 1.2e-16;
+               * unit of the sixth decimal plus the rounding of the reader (a double) */
+              /* (into a float: both values are within half a unit of the text, C15_float_narrow_partial: 1e-6) */
+              double tol = (items[i].kind == I_FSPEC && !items[i].wide) ? 1e-6 : 0.5e-6 + fabs(x) * 1.2e-16;
               char a[400], b[400]; snprintf(a, sizeof a, spec, x); snprintf(b, sizeof b, spec, y);
               int bad = strcmp(a, b) != 0 || ((cv == 'f' || cv == 'F') && !(fabs(x - y) <= tol));
               if (bad) {
